@@ -387,7 +387,23 @@ CANONICAL = dict(ns="prefix", prefix="xtce", comments="none", ws="compact", seed
 
 def draw_rendering(ch):
     ns = ch.weighted([(4, "prefix"), (3, "default"), (3, "none")], "ns")
-    prefix = ch.pick(("xtce", "x", "ξtce", "XTCE-1.2", "a_b"), "prefix") if ns == "prefix" else None
+    prefix = None
+    if ns == "prefix":
+        # "a prefix of any name": ordinary ones, non-ASCII, punctuation, names that are (prefixes of) XTCE element
+        # or attribute names, and drawn NCNames
+        pk_ = ch.weighted([(3, "plain"), (3, "elementlike"), (2, "drawn")], "prefix_kind")
+        if pk_ == "plain":
+            prefix = ch.pick(("xtce", "x", "ξtce", "XTCE-1.2", "a_b"), "prefix")
+        elif pk_ == "elementlike":
+            prefix = ch.pick(("S", "Header", "P", "Parameter", "SpaceSystem", "E", "C", "T", "Comparison", "Telemetry",
+                              "name", "Entry", "B", "I", "xsi2", "Fixed", "Cali", "U", "L", "D", "A", "O", "V"), "prefix")
+        else:
+            first = "abcdefghijklmnopqrstuvwxyzABCDEFGHIJKLMNOPQRSTUVWXYZ_"
+            rest = first + "0123456789.-"
+            prefix = first[ch.draw(len(first), "pfx0")] + "".join(rest[ch.draw(len(rest), "pfxc")]
+                                                                  for _ in range(ch.draw(6, "pfxlen")))
+            if prefix.lower().startswith("xml"):
+                prefix = "q" + prefix
     comments = ch.weighted([(4, "none"), (3, "some"), (2, "everywhere"), (1, "lists")], "comments")
     ws = ch.pick(("compact", "pretty", "tabs", "crlf"), "ws")
     seed = ch.draw(1 << 16, "rseed") if comments == "some" else 0
@@ -430,7 +446,9 @@ def render(doc, rd):
 
     def comment(depth):
         counter[0] += 1
-        return f"{nl}{ind * depth}<!-- c{counter[0]}: <{pre}Comparison parameterRef=\"X\"/> not an element -->"
+        # ('--' is not allowed inside a comment, so hyphens of the prefix are not copied into it)
+        return (f"{nl}{ind * depth}<!-- c{counter[0]}: <{pre.replace('-', '_')}Comparison parameterRef=\"X\"/> "
+                f"not an element -->")
 
     out = []
 
@@ -583,7 +601,7 @@ def encode_packet(doc, chain, apid, fixed, sub, count=0, version=0, flags=3):
             bits.put(rnd(k["bits"]), k["bits"])
         elif kind == "bindyn":
             n = k["slope"] * raw.get(k["ref"], 0) + k["icpt"]
-            n = min(n, 8 * 600)
+            n = min(n, 8 * 2000)
             for _ in range(n // 8):
                 bits.put(rnd(8), 8)
             if n % 8:
